@@ -39,6 +39,10 @@
 (*                    or Endpoint::open_connections is not zero            *)
 (*  Livelock          the poll budget was exhausted                        *)
 (*  Panic             code under test panicked                             *)
+(*                                                                         *)
+(* Deviations that are known findings are printed as KNOWN lines, not      *)
+(* flagged: StoppedPendingAcrossResetAck, StoppedWriterBlockedBySendWindow *)
+(* (see KnownStopped / KnownStoppedWriter).                                *)
 (***************************************************************************)
 EXTENDS Naturals, Integers, Sequences, FiniteSets, TLC, Json, IOUtils
 
